@@ -149,3 +149,82 @@ def decoder_tags(cdec: FunctionInfo) -> List[Tuple[str, Set[str], ast.If]]:
 
 def string_constants(node) -> Set[str]:
     return {n.value for n in ast.walk(node) if isinstance(n, ast.Constant) and isinstance(n.value, str)}
+
+
+def validate(defs: dict, node, value, depth=0):
+    """Minimal JSON-Schema (draft-04 subset used by JSON_SCHEMA) validator: returns None if valid else a reason."""
+    import re
+    if depth > 40 or node is None or not isinstance(node, dict):
+        return None
+    if "$ref" in node:
+        name = node["$ref"].split("/")[-1]
+        if name not in defs:
+            return f"dangling $ref {name}"
+        return validate(defs, defs[name], value, depth + 1)
+    if "anyOf" in node:
+        reasons = [validate(defs, alt, value, depth + 1) for alt in node["anyOf"]]
+        if all(r is not None for r in reasons):
+            return "no anyOf alternative accepts it (" + "; ".join(sorted(set(r for r in reasons if r))[:3]) + ")"
+    t = node.get("type")
+    if t is not None:
+        ok = {"string": isinstance(value, str), "integer": isinstance(value, int) and not isinstance(value, bool),
+              "number": isinstance(value, (int, float)) and not isinstance(value, bool), "boolean": isinstance(value, bool),
+              "null": value is None, "object": isinstance(value, dict), "array": isinstance(value, list)}.get(t, True)
+        if not ok:
+            return f"type {t} expected"
+    if "enum" in node and value not in node["enum"]:
+        return f"not in enum {node['enum']}"
+    if isinstance(value, str):
+        if "pattern" in node and node["pattern"] is not None and re.search(node["pattern"], value) is None:
+            return f"does not match pattern {node['pattern']!r}"
+        if "minLength" in node and len(value) < node["minLength"]:
+            return f"shorter than minLength {node['minLength']}"
+        if "maxLength" in node and len(value) > node["maxLength"]:
+            return f"longer than maxLength {node['maxLength']}"
+    if isinstance(value, (int, float)) and not isinstance(value, bool):
+        if "minimum" in node and value < node["minimum"]:
+            return f"below minimum {node['minimum']}"
+        if "maximum" in node and value > node["maximum"]:
+            return f"above maximum {node['maximum']}"
+    if isinstance(value, dict):
+        for r in node.get("required") or []:
+            if r not in value:
+                return f"required key {r!r} missing"
+        props = node.get("properties") or {}
+        for k, v in value.items():
+            if k in props:
+                why = validate(defs, props[k], v, depth + 1)
+                if why:
+                    return f"{k}: {why}"
+            elif node.get("additionalProperties") is False:
+                return f"additional property {k!r}"
+    if isinstance(value, list):
+        if "minItems" in node and len(value) < node["minItems"]:
+            return "too few items"
+        if "maxItems" in node and len(value) > node["maxItems"]:
+            return "too many items"
+        it = node.get("items")
+        if isinstance(it, dict):
+            for x in value:
+                why = validate(defs, it, x, depth + 1)
+                if why:
+                    return f"item: {why}"
+    return None
+
+
+# Witness documents for each tagged constant shape.  They follow from the contracts of the builtins the encoder applies
+# (str(int) is -?[0-9]+; ascii(str) is a quoted ASCII literal; base64 alphabet) and from the tag sets of R07.1 - not from running it.
+CONSTANT_WITNESSES = [
+    ("huge positive int", {"int": "9007199254740992"}),
+    ("huge negative int", {"int": "-9007199254740992"}),
+    ("very long int", {"int": "1" + "0" * 40}),
+    ("+inf", {"float": "inf"}), ("-inf", {"float": "-inf"}), ("nan", {"float": "nan"}),
+    ("string with a lone surrogate", {"string": "'\\ud800 doc'"}),
+    ("string with quotes and a surrogate", {"string": "'\\udc80\"\\'x'"}),
+    ("empty bytes", {"bytes": ""}), ("bytes", {"bytes": "AP8="}),
+    ("ellipsis", {"type": "ellipsis"}),
+    ("complex", {"real": 1.5, "imag": -0.0}), ("complex with nan / inf", {"real": {"float": "nan"}, "imag": {"float": "-inf"}}),
+    ("frozenset", {"frozenset": [1, "a", {"bytes": "AA=="}]}), ("empty frozenset", {"frozenset": []}),
+    ("tuple", [1, [2.5, None], {"int": "-99999999999999999999"}]), ("empty tuple", []),
+    ("bool", True), ("none", None), ("small int", -7), ("float", -0.0), ("plain string", "x"),
+]
